@@ -1,7 +1,7 @@
 (* CRC-32 (IEEE 802.3, reflected, as zlib.crc32) over byte lists, bitwise definition. *)
 From Coq Require Import List NArith ZArith.
 Import ListNotations.
-Open Scope N_scope.
+Local Open Scope N_scope.
 
 Definition poly : N := 0xEDB88320.
 Fixpoint crc_bits (n : nat) (c : N) : N :=
